@@ -47,6 +47,10 @@ def gen_plan(seed: int, tier: str) -> dict:
         for _ in range(r.randint(2, 5)):
             kind = r.choice(["get", "put", "put"])
             reqs.append({"kind": kind, "pick": r.sample(range(8), n), "status": [r.choice([0, 0, 0, r.choice([1, 2, 3, 4, 5, 6])]) for _ in range(n)]})
+            if kind == "get" and not any(reqs[-1]["status"]) and r.random() < 0.3:
+                # a caller may name one characteristic twice: every requested characteristic must still be answered
+                reqs[-1]["pick"].insert(1, reqs[-1]["pick"][0])
+                reqs[-1]["status"].insert(1, 0)
         return {"transport": transport, "reqs": reqs, "ops": list(range(len(reqs)))}
     reqs = []
     for _ in range(r.randint(3, 8)):
